@@ -853,13 +853,13 @@ def run(ctx: core.Ctx):
                                      '5 limit pairs: %d cases' % len(space))
     else:
         space = list(exhaustive_cases(2, [(2, 3), (3, 4), (2, 4), (3, 5), (4, 6), (1, 2), (3, 3), (5, 12)], (1, 2, 3, 4)))
-        space += list(exhaustive_cases(3, [(3, 4), (2, 4), (3, 5)], (1, 2)))
+        space += list(exhaustive_cases(3, [(3, 4), (2, 4), (3, 5), (4, 6)], (1, 2, 3)))
         ctx.exhaustive_spaces.append('all depth-2 programs with <= 2 tables (count 1..4) x 8 limit pairs and <= 3 '
-                                     'tables (count 1..2) x 3 limit pairs over 13 entry lists: %d cases' % len(space))
+                                     'tables (count 1..3) x 4 limit pairs over 13 entry lists: %d cases' % len(space))
     run_cases(ctx, 'exh', space, 3000 if ctx.quick else 1500)
     # ---- random structured cases
-    for family, nq, nt in (('tree', 300, 5000), ('pt', 80, 1500), ('volatile', 60, 1000), ('malformed', 60, 800),
-                           ('compat', 50, 800)):
+    for family, nq, nt in (('tree', 300, 20000), ('pt', 80, 5000), ('volatile', 60, 4000), ('malformed', 60, 3000),
+                           ('compat', 50, 3000)):
         rng = ctx.fork(family)
         cases = [compat_case(rng) if family == 'compat' else random_case(rng, family) for _ in range(ctx.n(nq, nt))]
         run_cases(ctx, family, cases, 150 if ctx.quick else 100)
@@ -1042,10 +1042,35 @@ def _known_findings(ctx):
 
 
 def replay(ctx: core.Ctx, rec: dict, from_corpus: bool = False) -> bool:
-    if rec.get('kind') == 'case' or 'case' in rec:
+    """re-execute one replay / corpus record against the implementation, the judge and the model"""
+    before = (len(ctx.violations), len(ctx.drifts))
+    if 'case' in rec and isinstance(rec['case'], dict):
         b = Batch(ctx, 'corpus' if from_corpus else 'replay')
         b.add(rec['case'])
-        before = len(ctx.violations)
         b.run()
-        return len(ctx.violations) == before
-    return True
+    elif rec.get('kind') in ('packing', 'code14'):
+        sub = core.Ctx(ctx.pid, rec.get('tier', 'quick'), rec.get('seed', 0))
+        sub.violations = ctx.violations
+        sub.drifts = ctx.drifts
+        if rec['kind'] == 'packing':
+            _check_packing(sub, sub.n(150, 3000))
+        else:
+            _check_codes(sub, sub.n(300, 6000))
+    elif 'first_differences' in rec:
+        # a record of a broken correspondence: re-run the recorded cases
+        b = Batch(ctx, 'replay')
+        for d in rec['first_differences']:
+            c = d.get('case')
+            if isinstance(c, dict) and isinstance(c.get('case'), dict):
+                b.add(c['case'])
+        if b.items:
+            b.run()
+        if any(isinstance(d.get('case'), str) for d in rec['first_differences']):
+            sub = core.Ctx(ctx.pid, rec.get('tier', 'quick'), rec.get('seed', 0))
+            sub.violations = ctx.violations
+            sub.drifts = ctx.drifts
+            _check_packing(sub, sub.n(150, 3000))
+            _check_codes(sub, sub.n(300, 6000))
+        for d in ctx.drifts[before[1]:]:
+            print('DRIFT %s: implementation %s, model %s' % (d['correspondence'], str(d['impl'])[:120], str(d['model'])[:120]))
+    return (len(ctx.violations), len(ctx.drifts)) == before
